@@ -86,6 +86,7 @@ struct Harness {
   virtual Plan generate(uint64_t seed, int tier, vsim::Config& cfg) = 0;   // also fills cfg.strategy etc.
   virtual std::string describe(const Plan&) = 0;                           // human-readable form for samples
   virtual Outcome run(const Plan&, const vsim::Config& cfg) = 0;           // begin()..end() inside
+  virtual void warm(long) {}                                               // in-process history before the runs (long-lived process)
 };
 
 // ------------------------------------------------------------------ per-run context for the fatal path
@@ -132,14 +133,16 @@ inline void sanitizer_death() { if (vsim::active()) emit_result("memory-error", 
 inline int harness_main(int argc, char** argv, Harness& h) {
   vsim::set_fatal_callback(fatal_cb);
   if (&__sanitizer_set_death_callback) __sanitizer_set_death_callback(sanitizer_death);
-  uint64_t first = 1, count = 1, stride = 1; int tier = 0; const char* variant = ""; const char* replay = nullptr;
+  uint64_t first = 1, count = 1, stride = 1; int tier = 0; const char* variant = ""; const char* replay = nullptr; long warm = 0;
   for (int i = 1; i < argc; ++i) {
     if (!strcmp(argv[i], "--seeds") && i + 3 < argc) { first = strtoull(argv[i + 1], 0, 10); count = strtoull(argv[i + 2], 0, 10); stride = strtoull(argv[i + 3], 0, 10); i += 3; }
     else if (!strcmp(argv[i], "--tier") && i + 1 < argc) tier = atoi(argv[++i]);
     else if (!strcmp(argv[i], "--variant") && i + 1 < argc) variant = argv[++i];
     else if (!strcmp(argv[i], "--replay") && i + 1 < argc) replay = argv[++i];
+    else if (!strcmp(argv[i], "--warm") && i + 1 < argc) warm = atol(argv[++i]);
   }
   auto& c = ctx(); c.h = &h; c.variant = variant;
+  if (warm > 0) h.warm(warm);
   if (replay) {
     J j = parse_file(replay);
     c.seed = uint64_t(j.geti("seed")); c.plan = plan_from(*j.get("plan")); c.cfg = vsim::Config{}; if (j.get("cfg")) cfg_from(*j.get("cfg"), c.cfg);
